@@ -252,7 +252,9 @@ def norm_scalar(v, dtype):
     if isinstance(v, bool):
         return int(v)
     if isinstance(v, float):
-        return int(v)
+        v = int(v)
+    if dtype == torch.uint8 and isinstance(v, int):
+        return v % 256          # concrete values wrap as in torch; symbolic integers are assumed in range
     return v
 
 
